@@ -10,6 +10,7 @@ RULE = ("conventional documents with comment blocks, trailing comments and multi
         "by relative names (after chdir) and through a symbolic link; every key's extended value and the path query are compared with "
         "the document; a merged result must report the empty path; distinct by (content, sets, way of naming the file)")
 PATH = b"/etc/app/doc.conf"
+SHRINK = False
 WAYS = [("abs", None, PATH), ("rel_same_dir", b"/etc/app", b"doc.conf"), ("rel_dot", b"/etc/app", b"./doc.conf"),
         ("rel_parent", b"/etc", b"app/doc.conf"), ("rel_updown", b"/etc/app", b"../app/doc.conf")]
 
